@@ -65,7 +65,12 @@ class BaseRouter:
             return self._add_category(category_name, destination_uuid)
 
     def get_exits(self):
-        return [c.get_exit() for c in self.get_categories()]
+        # Several categories may share one exit: it is listed once
+        exits = []
+        for category in self.get_categories():
+            if category.get_exit() not in exits:
+                exits.append(category.get_exit())
+        return exits
 
     def record_global_uuids(self, uuid_dict):
         pass
